@@ -10,6 +10,8 @@ LEAN_MODULES = ["QProps.C11"]
 THEOREMS = [
     "MM.disp_changes_only_selected",
     "MM.negative_never_moved",
+    "MM.preselected_ineligible_fails",
+    "MM.pinned_preselected_negative_moves",
     "MM.disp_no_candidate_fails",
     "MM.disp_fixed_stays",
     "MM.composite_no_repeat",
@@ -67,8 +69,12 @@ def locality_violations(case, obs):
                 continue
             chosen = {i for i, l in enumerate(labels) if l == sel}
             presel = any(p[0] == r and p[1] == "D" for p in tr.get("presel", []))
-            if not presel and sel < 0:
-                out.append((f"disp:negative-label-selected:{ts}", f"trial {k}: label {sel}"))
+            how = "pre-selected" if presel else "drawn"
+            if sel < 0:
+                out.append((f"disp:negative-label-selected:{how}:{ts}", f"trial {k}: label {sel} ({how}) was displaced"))
+            if not chosen:
+                out.append((f"disp:success-without-eligible-particle:{how}:{ts}",
+                            f"trial {k}: label {sel} ({how}) is carried by no atom, yet the move reported success"))
             extra_moved = set(mv) - chosen
             if extra_moved:
                 out.append((f"disp:other-atom-moved:{ts}", f"trial {k}: selected label {sel} (atoms {sorted(chosen)}), moved {sorted(mv)}"))
